@@ -20,6 +20,7 @@ def parseVal (s : String) : PyVal :=
   | ["f", t, z] => .float (ptok t) (z == "1")
   | ["n"] => .none
   | ["l", c, l] => .list c.toNat! (parseToks l)
+  | ["t", l] => .tuple (parseToks l)
   | ["o", i, e] => .other i.toNat! (e == "1")
   | _ => .none
 
@@ -30,6 +31,7 @@ def showVal : PyVal → String
   | .float t z => s!"f:{stok t}:{bit z}"
   | .none => "n"
   | .list c l => s!"l:{c}:{showToks l}"
+  | .tuple l => s!"t:{showToks l}"
   | .other i e => s!"o:{i}:{bit e}"
 
 def parseOpt (s : String) : Option PStr := if s == "~" then none else some (ptok s)
@@ -183,6 +185,10 @@ def handle : List String → String
   | ["tag", b, m, dcls, lcls, isxml, name, attrs, sets] =>
     let cfg : Option BuilderCfg := if b == "b" then some (mkCfg m dcls lcls) else none
     showTag ((tagInit md pyLower cfg (isxml == "1") (ptok name) (parseAttrsArg attrs)).bind
+      fun t => tagSetMany md t (parseSets sets))
+  | ["newtag", m, dcls, lcls, name, kw, attrs, sets] =>
+    let a : Option Items := if attrs == "~" then none else some (parseItems attrs)
+    showTag ((newTag md pyLower (mkCfg m dcls lcls) (ptok name) (parseItems kw) a).bind
       fun t => tagSetMany md t (parseSets sets))
   | ["parse", m, dcls, lcls, ondup, name, attrs] =>
     match parseStartTagArg md pyLower (mkCfg m dcls lcls) (parseOnDup ondup) (ptok name) (parseRaw attrs) with
